@@ -358,6 +358,10 @@ def run(chk: Check):
     rule_w2(chk)
     rule_w3(chk, ir)
     rule_w4(chk, ir)
+    # the scanner is part of the work: no exponentially ambiguous regular expression (C03 T4)
+    from .c03 import rule_t4
+    from ..pyflow import Index
+    rule_t4(chk, Index())
     chk.floor("W1-memo-barrier", 150)
     chk.floor("W2-cache-hit", 9)
     chk.floor("W3-consuming-repetition", 100)
